@@ -67,7 +67,11 @@ def run_decode(acc, start, s, w, mode, chk, tbl):
         kw["shuffles"] = sh
     if chk is not None:
         kw["vt_check"] = chk
-    r = impl.call(dsw.decode, s, w, acc, start, _alarm=60, **kw)
+    # the message width and the start vertex as callers hold them: Python ints or numpy integers (a length byte of a header is unsigned)
+    pick = (len(s) + 3 * w + start) % 8
+    wt = [int, int, numpy.int64, numpy.uint8 if w < 256 else numpy.uint16, numpy.uint32, numpy.uint64, int, numpy.int32][pick]
+    st = numpy.int64(start) if pick in (2, 6) else start
+    r = impl.call(dsw.decode, s, wt(w), acc, st, _alarm=60, **kw)
     res = {"out": outcome(r), "bits": []}
     if r["out"] == "ok":
         try:
